@@ -149,3 +149,60 @@ def unit_to_latlon(u):
     lat = np.degrees(np.arcsin(np.clip(u[2], -1.0, 1.0)))
     lon = np.degrees(np.arctan2(u[1], u[0]))
     return lat, lon
+
+
+# --- additions for C13 (nothing above is changed) ---------------------------
+
+
+def unit_to_latlon_atan2(u):
+    """Inverse of latlon_to_unit that stays well conditioned near the poles.
+
+    lat = atan2(z, hypot(x, y)) keeps full relative precision of the co-latitude
+    (arcsin(z) loses half of the digits when |z| -> 1).  lon in [-180, 180].
+    """
+    u = np.asarray(u, dtype=float)
+    lat = np.degrees(np.arctan2(u[2], np.hypot(u[0], u[1])))
+    lon = np.degrees(np.arctan2(u[1], u[0]))
+    return lat, lon
+
+
+def arc_from_chord(chord):
+    """Central angle (radians) of a chord of the unit sphere, chords > 2 clipped."""
+    half = np.clip(np.asarray(chord, dtype=float) / 2.0, 0.0, 1.0)
+    return 2.0 * np.arctan2(half, np.sqrt((1.0 - half) * (1.0 + half)))
+
+
+def rot_pole_to(lat0, lon0):
+    """Rotation taking the north pole (0, 0, 1) to the point (lat0, lon0) [deg]."""
+    b = math.radians(90.0 - lat0)
+    a = math.radians(lon0)
+    ry = np.array(
+        [[math.cos(b), 0.0, math.sin(b)], [0.0, 1.0, 0.0], [-math.sin(b), 0.0, math.cos(b)]]
+    )
+    rz = np.array(
+        [[math.cos(a), -math.sin(a), 0.0], [math.sin(a), math.cos(a), 0.0], [0.0, 0.0, 1.0]]
+    )
+    return rz @ ry
+
+
+def cap_points(lat0, lon0, colat, azim):
+    """Unit vectors at angular distance ``colat`` (rad) and azimuth ``azim`` (rad)
+    from the centre (lat0, lon0) [deg]; shape (3, n)."""
+    colat = np.asarray(colat, dtype=float)
+    azim = np.asarray(azim, dtype=float)
+    u = np.array(
+        [np.sin(colat) * np.cos(azim), np.sin(colat) * np.sin(azim), np.cos(colat)]
+    )
+    return rot_pole_to(lat0, lon0) @ u
+
+
+def sphere_cross_dist(u, v):
+    """Matrix of central angles between the columns of u (3, n) and v (3, m)."""
+    u = np.asarray(u, dtype=float)
+    v = np.asarray(v, dtype=float)
+    out = np.zeros((u.shape[1], v.shape[1]))
+    for i in range(u.shape[1]):
+        a = np.repeat(u[:, i : i + 1], v.shape[1], axis=1)
+        cr = np.cross(a, v, axis=0)
+        out[i] = np.arctan2(np.linalg.norm(cr, axis=0), np.sum(a * v, axis=0))
+    return out
